@@ -48,6 +48,8 @@ def type_name(v):
 
 # ------------------------------------------------------------------ core builtins
 def len_(it, v):
+    if isinstance(v, (set, frozenset, dict)) and any(is_sym(x) for x in v):
+        raise OutOfSubset("len() of a set / dict with symbolic members (duplicates are not decided)")
     if isinstance(v, (list, tuple, dict, set, frozenset, str, bytes, range)):
         return len(v)
     if isinstance(v, SStr):
@@ -638,6 +640,21 @@ def getitem(it, obj, key):
             return obj[k]
         raise OutOfSubset(f"list index {key!r}")
     if isinstance(obj, dict):
+        if it.spec and (is_sym(key) or has_symkeys(obj)) and obj and all(is_sym(v) or isinstance(v, (int, str, bool)) for v in obj.values()):
+            # specification-side lookup: no forking, no exception - an if-then-else chain over the keys (arbitrary value when the key is absent;
+            # clauses guard such lookups with `k in d`)
+            vals = list(obj.items())
+            zs = [z3_of(v) for _, v in vals]
+            if len({z.sort() for z in zs}) == 1:
+                cur = z3.Const(it.path.fresh("undefined"), zs[0].sort())
+                for (k, _), z in reversed(list(zip(vals, zs))):
+                    c = eq(k, key)
+                    cur = z if c is True else (cur if c is False else z3.If(c, z, cur))
+                r = wrap(cur)
+                probe = vals[0][1]
+                if isinstance(r, Opaque) and isinstance(probe, Opaque):
+                    r = Opaque(probe.sort, r.z, probe.cls)
+                return r
         k = _dict_lookup(it, obj, key)
         if k is _MISSING:
             it.raise_builtin("KeyError", key)
@@ -662,7 +679,7 @@ def getitem(it, obj, key):
         it.safety("IndexError", z3.And(kk >= 0, kk < n))
         return wrap(z3.SubString(s, kk, 1))
     if isinstance(obj, VObj):
-        m = obj.cls.find_method("__getitem__")
+        m = obj.cls.find_method("__getitem__") or it.reg.nominal_methods.get(obj.cls.qualname, {}).get("__getitem__")
         if m:
             return it.call(it.getattr(obj, "__getitem__"), [key], {})
     if isinstance(obj, Opaque):
@@ -1005,6 +1022,10 @@ def dict_method(it, d, name, args, kw):
 
 
 def set_method(it, s, name, args, kw):
+    if name == "add" and is_sym(args[0]):
+        # symbolic elements live in the native set by identity; every membership test goes through semantic equality (Interp.contains)
+        s.add(args[0])
+        return None
     if _has_sym(list(args)) and not all(isinstance(a, (VObj, set, frozenset, list, tuple)) for a in args):
         raise OutOfSubset(f"set.{name} with symbolic element")
     try:
@@ -1139,6 +1160,7 @@ EXTERN = {
     "hypothesis.reporting.with_reporter": lambda it, a, k: NoopCM(None),
     "time.time": x_time,
     "time.monotonic": x_time,
+    "time.perf_counter": x_time,
     "functools.partial": x_partial,
     "functools.wraps": lambda it, a, k: BuiltinIdentity(),
     "functools.lru_cache": x_identity_decorator,
